@@ -487,13 +487,8 @@ class Balancer:
             new_right = claripy.Concat(truism.args[1], claripy.BVV(0, len(left_lsb)))
             return Bool(truism.op, (new_left, new_right))
 
-        if low == 0 and truism.args[1].op == "BVV" and truism.op not in {"SGE", "SLE", "SGT", "SLT"}:
-            # single-valued rhs value with an unsigned operator
-            # Eliminate Extract on lhs and zero-extend the value on rhs
-            new_left = inner
-            new_right = claripy.ZeroExt(inner.size() - truism.args[1].size(), truism.args[1])
-            return Bool(truism.op, (new_left, new_right))
-
+        # the bits above `high` are unconstrained unless they are known to be zero (handled above), so the Extract
+        # cannot be dropped: e.g. x[3:0] >= 3 does not bound x itself from below by 3 (x = 0x13 satisfies it)
         return truism
 
     @staticmethod
